@@ -219,6 +219,23 @@ fn run(a: &[&str]) -> String {
         }
         "addr_decode" => addr_decode(&a[1..]),
         "addr_encode" => addr_encode(&a[1..]),
+        "grc_normalize" => {
+            // grc_normalize <general constraint tokens..> <n balance ids> <ids..>: acceptance of the balance by the constraint
+            // before and after GeneralResourceConstraint::normalize -> `val <before 0|1> <after 0|1> <valid 0|1>`
+            let (c, k) = grc(&a[1..]);
+            let m: usize = a[1 + k].parse().unwrap();
+            let ids = idset(&a[2 + k..2 + k + m]);
+            let valid = c.is_valid_for_non_fungible_use();
+            let before = c.clone().validate_non_fungible(&ids).is_ok();
+            let after = match c {
+                ManifestResourceConstraint::General(mut g) => {
+                    g.normalize();
+                    g.validate_non_fungible_ids(&ids).is_ok()
+                }
+                _ => unreachable!(),
+            };
+            format!("val {} {} {}", before as u8, after as u8, valid as u8)
+        }
         "grc_valid_nf" => {
             let (c, _) = grc(&a[1..]);
             format!("val {}", if c.is_valid_for_non_fungible_use() { 1 } else { 0 })
